@@ -59,6 +59,10 @@ pub trait Property: Sync {
     /// human-readable rendering of the decoded case
     fn describe(&self, tape: &[u16]) -> String;
     fn rule(&self) -> String;
+    /// evaluation budget for shrinking a failure (lower it when one evaluation is slow)
+    fn shrink_budget(&self) -> usize {
+        6000
+    }
     /// Properties over a universe/problem decode the tape into a structured case that
     /// can be minimised structurally and replayed without the generator.
     fn decode_struct(&self, _tape: &[u16]) -> Option<StructCase> {
@@ -213,8 +217,9 @@ fn shrink<T: ValueTree<Value = Vec<u16>>>(
     mut tree: T,
     first: Vec<u16>,
     fails: &dyn Fn(&[u16]) -> bool,
-    max_iters: usize,
+    budget: usize,
 ) -> Vec<u16> {
+    let max_iters = budget / 4;
     let mut last = first;
     let mut iters = 0;
     'outer: loop {
@@ -236,7 +241,7 @@ fn shrink<T: ValueTree<Value = Vec<u16>>>(
             }
         }
     }
-    tape_passes(last, fails, 6000)
+    tape_passes(last, fails, budget)
 }
 
 /// Tape-aware shrink passes that complement proptest's generic `Vec` shrinking: because a
@@ -446,8 +451,8 @@ pub fn run_property(prop: &dyn Property, opts: &RunOpts, golden: &[Vec<u16>]) ->
                                 .unwrap_or(false)
                         };
                         let min = match tree {
-                            Some(tree) => shrink(tree, tape.clone(), &fails, 1500),
-                            None => tape_passes(tape.clone(), &fails, 6000),
+                            Some(tree) => shrink(tree, tape.clone(), &fails, prop.shrink_budget()),
+                            None => tape_passes(tape.clone(), &fails, prop.shrink_budget()),
                         };
                         // structural minimisation of the decoded case
                         let case = prop.decode_struct(&min).map(|sc| {
